@@ -158,8 +158,8 @@ def enc_resp(r) -> str:
     return f"{st}/{cps(meta)}/{b}"
 
 
-def enc_case(c) -> str:
-    """driver line for a connection case"""
+def enc_case(c, verb="connx") -> str:
+    """driver line for a connection case (verb `sys`: the composed machine, with the transport's flow-control events)"""
     h = c["handler"]
     hs = "s:" + enc_resp(h[1]) if h[0] == "s" else h[0]
     parts = []
@@ -187,10 +187,12 @@ def enc_case(c) -> str:
             parts.append(k + ":" + enc_resp(e[1]))
         elif k == "tick":
             parts.append(f"k:{e[1]}")
+        elif k == "lim":
+            parts.append(f"lim:{e[1]}")
         else:
             parts.append(k)
     ip, nf = env_bits(c)
-    return f"connx {ip} {nf} {int(c['mw'])} {int(c['up'])} {hs} " + " ".join(parts)
+    return f"{verb} {ip} {nf} {int(c['mw'])} {int(c['up'])} {hs} " + " ".join(parts)
 
 
 def env_bits(c) -> tuple[int, int]:
@@ -309,7 +311,8 @@ async def run_conn(loop: VLoop, c, middleware=None, upload_handler=None, handler
     mwobj = middleware if middleware is not None else (MW() if c["mw"] else None)
     upobj = upload_handler if upload_handler is not None else (Up() if c["up"] else None)
     p = GeminiServerProtocol(handler or h, mwobj, upobj)
-    t = FakeTransport(peer=peer, cert_der=cert_der)
+    t = FlowTransport(peer=peer, cert_der=cert_der)      # behaves like FakeTransport until a `lim` event arms a pause
+    t.protocol = p
 
     def on_exc(lp, ctx):
         log["exc"].append(str(ctx.get("exception") or ctx.get("message"))[:120])
@@ -356,6 +359,16 @@ async def run_conn(loop: VLoop, c, middleware=None, upload_handler=None, handler
                         if eof is not None:
                             eof()      # no loop iteration in between: what a queued callback writes now goes to a closing transport
                     p.connection_lost(None)
+            elif k == "lim":
+                t.limit = e[1]
+            elif k == "rw":
+                if not lost:
+                    t.paused = False
+                    p.resume_writing()
+            elif k == "pw":
+                if not lost:
+                    t.paused = True
+                    p.pause_writing()
             elif k in ("ma", "mr", "mn", "md"):
                 g = gates.pop("m", None)
                 if g and not g.done():
@@ -402,6 +415,7 @@ async def run_conn(loop: VLoop, c, middleware=None, upload_handler=None, handler
         "pending": pending, "exc": list(log["exc"]), "lost": lost, "lens": lens,
         "racy": any(e[0].endswith("!") for e in c["evs"]),
         "awaiting": bool(getattr(p, "awaiting_titan_content", False)),
+        "paused_end": t.paused,
     }
     # tear down what the case left behind so that nothing fires during a later case on this loop
     loop.set_exception_handler(lambda lp, ctx: None)
